@@ -706,7 +706,7 @@ struct Run {
 }
 
 impl Ctx {
-    fn run_shape(&self, srv: &Srv, ops: &[Op], shape: &Shape, rows: u64) -> Run {
+    fn run_shape(&self, srv: &Srv, ops: &[Op], shape: &Shape, rows: u64, v_old: &Obs) -> Run {
         match shape {
             Shape::Before => srv.rt.block_on(async {
                 let mut r = srv.idms.proxy_read().await.expect("proxy_read");
@@ -758,7 +758,37 @@ impl Ctx {
                     while stage.load(std::sync::atomic::Ordering::SeqCst) == 0 {
                         std::thread::sleep(Duration::from_millis(2));
                     }
-                    std::thread::sleep(Duration::from_millis(120));
+                    // … then until the last publication that precedes the pause is visible (state based,
+                    // not time based): the trim cid for a pause inside be_txn.commit(), the OAuth2 set for
+                    // the pause at set_db_ts_max (if the writer changes it); then a safety margin
+                    let has_o2 = ops.iter().any(|o| matches!(o, Op::OAuth2 | Op::OAuth2Del));
+                    let probe_key = if table == "db_op_ts" { if has_o2 { Some("oauth2") } else { None } } else { Some("cid") };
+                    let t_wait = Instant::now();
+                    if let Some(pk) = probe_key {
+                        loop {
+                            let now_v = srv.rt.block_on(async {
+                                let r = srv.idms.proxy_read().await.expect("proxy_read");
+                                if pk == "cid" {
+                                    let (ts, su) = kanidmd_lib::verif_hooks::c04::read_trim_cid(&r.qs_read);
+                                    format!("{}.{:09}@{su}", ts.as_secs(), ts.subsec_nanos())
+                                } else {
+                                    ["vp_base", "vp_client"].iter().map(|c| format!("{c}:{}", r.oauth2_openid_publickey(c).is_ok())).collect::<Vec<_>>().join(" ")
+                                }
+                            });
+                            let old_v = if pk == "cid" {
+                                v_old.get("cid").cloned().unwrap_or_default()
+                            } else {
+                                ["vp_base", "vp_client"].iter().map(|c| format!("{c}:{}", !v_old.get("oauth2").map(|v| v.contains(&format!("{c}:NoMatchingEntries"))).unwrap_or(true))).collect::<Vec<_>>().join(" ")
+                            };
+                            if now_v != old_v || stage.load(std::sync::atomic::Ordering::SeqCst) == 2 || t_wait.elapsed() > Duration::from_secs(5) {
+                                break;
+                            }
+                            std::thread::sleep(Duration::from_millis(3));
+                        }
+                        std::thread::sleep(Duration::from_millis(60));
+                    } else {
+                        std::thread::sleep(Duration::from_millis(150));
+                    }
                     let out = srv.rt.block_on(async {
                         let mut r = srv.idms.proxy_read().await.expect("proxy_read");
                         let first_in = if late { None } else { Some(queries(&mut r)) };
@@ -810,10 +840,16 @@ impl Ctx {
                 rm_db(&twin);
                 o
             };
-            let run = self.run_shape(&srv, ops, shape, rows);
+            let run = self.run_shape(&srv, ops, shape, rows, &v_old);
             if run.achieved {
-                self.finish(&srv, &v_old, ops, shape, warm, &run, input, rep);
-                return;
+                // a model disagreement on a timing dependent shape must reproduce before it is reported
+                let last = _attempt == 2 || !matches!(shape, Shape::Pause(_) | Shape::PauseLate(_));
+                if self.finish(&srv, &v_old, ops, shape, warm, &run, input.clone(), rep, last) {
+                    return;
+                }
+                drop(srv);
+                rep.count("pause-disagreement-retry");
+                continue;
             }
             // the writer left commit() before the reader was done: start over with a longer pause
             drop(srv);
@@ -825,15 +861,11 @@ impl Ctx {
     }
 
     #[allow(clippy::too_many_arguments)]
-    fn finish(&mut self, srv: &Srv, v_old: &Obs, ops: &[Op], shape: &Shape, warm: bool, run: &Run, input: J, rep: &mut Report) {
+    fn finish(&mut self, srv: &Srv, v_old: &Obs, ops: &[Op], shape: &Shape, warm: bool, run: &Run, input: J, rep: &mut Report, last: bool) -> bool {
         let v_new = srv.observe();
-        rep.count(&format!("shape:{}", shape.show().split(':').next().unwrap_or("")));
         let changing: BTreeSet<String> = v_old.keys().filter(|k| v_old.get(*k) != v_new.get(*k)).cloned().collect();
         let cfg_changing: BTreeSet<String> = changing.iter().filter(|k| !STORED.contains(&k.as_str())).cloned().collect();
         let stored_changing: BTreeSet<String> = changing.iter().filter(|k| STORED.contains(&k.as_str())).cloned().collect();
-        // non-trivial: the writer changed at least two stored observables and one configuration observable
-        let nontrivial = stored_changing.len() >= 2 && !cfg_changing.iter().all(|k| k == "cid");
-        rep.case(if nontrivial { Some(format!("{}|{}|{}", ops.iter().map(|o| o.show()).collect::<Vec<_>>().join("+"), shape.show(), warm)) } else { None });
         // side of every changing observable in the reader's first run
         let side = |o: &Obs, k: &String| -> &'static str {
             if o.get(k).map(|v| shape_of(v)) == v_old.get(k).map(|v| shape_of(v)) {
@@ -855,6 +887,51 @@ impl Ctx {
         };
         let sides: BTreeMap<String, &'static str> = changing.iter().map(|k| (k.clone(), side(&run.first, k))).collect();
         let unchanged_ok = v_old.keys().filter(|k| !changing.contains(*k)).all(|k| run.first.get(k).map(|v| shape_of(v)) == v_old.get(k).map(|v| shape_of(v)));
+
+        // ---------------- correspondence (computed first: see `last`) ----------------
+        let mut model_bad: Option<(String, Vec<String>)> = None;
+        if let Some(m) = self.model.as_mut() {
+            if m.disagreements < 4 {
+                let len = m.steps.len();
+                let (k, sel) = match shape {
+                    Shape::Before => (0, 0),
+                    Shape::After => (len, len),
+                    Shape::Deferred => (0, len),
+                    Shape::Pause(t) => (m.idx(pause_step(t)), m.idx(pause_step(t))),
+                    Shape::PauseLate(t) => (m.idx(pause_step(t)), len),
+                };
+                let pred = m.obs(&cfg_changing, !stored_changing.is_empty(), k, sel);
+                let mut bad = vec![];
+                for (o, c) in OBS_CELLS {
+                    if cfg_changing.contains(o) {
+                        let want = if pred[c] == 1 { "new" } else { "old" };
+                        if sides[o] != want {
+                            bad.push(format!("{o}: model {want}, observed {}", sides[o]));
+                        }
+                    }
+                }
+                if !stored_changing.is_empty() {
+                    let mut allowed: BTreeSet<&str> = BTreeSet::new();
+                    allowed.insert(if pred["db"] == 1 { "new" } else { "old" });
+                    for c in CACHES {
+                        allowed.insert(if pred[c] == 1 { "new" } else { "old" });
+                    }
+                    for o in &stored_changing {
+                        if !(allowed.contains(sides[o]) || (sides[o] == "mixed" && allowed.len() == 2)) {
+                            bad.push(format!("{o}: model {allowed:?}, observed {}", sides[o]));
+                        }
+                    }
+                }
+                if !bad.is_empty() && !last {
+                    return false;
+                }
+                model_bad = Some((format!("model atomicRead {k} {sel}: {pred:?}"), bad));
+            }
+        }
+        rep.count(&format!("shape:{}", shape.show().split(':').next().unwrap_or("")));
+        // non-trivial: the writer changed at least two stored observables and one configuration observable
+        let nontrivial = stored_changing.len() >= 2 && !cfg_changing.iter().all(|k| k == "cid");
+        rep.case(if nontrivial { Some(format!("{}|{}|{}", ops.iter().map(|o| o.show()).collect::<Vec<_>>().join("+"), shape.show(), warm)) } else { None });
 
         // ---------------- oracle ----------------
         let all_old = sides.values().all(|s| *s == "old");
@@ -905,55 +982,24 @@ impl Ctx {
             rep.count(if all_old && all_new { "consistent:nothing-changed" } else if all_old { "consistent:old" } else { "consistent:new" });
         }
 
-        // ---------------- correspondence ----------------
-        if let Some(m) = self.model.as_mut() {
-            if m.disagreements >= 4 {
-                return;
-            }
-            let len = m.steps.len();
-            let (k, sel) = match shape {
-                Shape::Before => (0, 0),
-                Shape::After => (len, len),
-                Shape::Deferred => (0, len),
-                Shape::Pause(t) => (m.idx(pause_step(t)), m.idx(pause_step(t))),
-                Shape::PauseLate(t) => (m.idx(pause_step(t)), len),
-            };
-            let pred = m.obs(&cfg_changing, !stored_changing.is_empty(), k, sel);
-            let mut bad = vec![];
-            for (o, c) in OBS_CELLS {
-                if cfg_changing.contains(o) {
-                    let want = if pred[c] == 1 { "new" } else { "old" };
-                    if sides[o] != want {
-                        bad.push(format!("{o}: model {want}, observed {}", sides[o]));
-                    }
-                }
-            }
-            if !stored_changing.is_empty() {
-                let mut allowed: BTreeSet<&str> = BTreeSet::new();
-                allowed.insert(if pred["db"] == 1 { "new" } else { "old" });
-                for c in CACHES {
-                    allowed.insert(if pred[c] == 1 { "new" } else { "old" });
-                }
-                for o in &stored_changing {
-                    if !(allowed.contains(sides[o]) || (sides[o] == "mixed" && allowed.len() == 2)) {
-                        bad.push(format!("{o}: model {allowed:?}, observed {}", sides[o]));
-                    }
-                }
-            }
+        if let Some((pred, bad)) = model_bad {
             if bad.is_empty() {
                 rep.count("model-agree");
             } else {
-                m.disagreements += 1;
+                if let Some(m) = self.model.as_mut() {
+                    m.disagreements += 1;
+                }
                 rep.fail(Failure {
                     kind: "impl-vs-model".into(),
                     class: "observed-versions-differ".into(),
                     input,
-                    expected: format!("model atomicRead {k} {sel}: {pred:?}"),
+                    expected: pred,
                     observed: bad.join("; "),
                 });
             }
         }
         let _ = warm;
+        true
     }
 }
 
